@@ -129,8 +129,8 @@ Print Assumptions C02_immediate_core_removes_exactly_the_victim_slot.
 
 (* ---------------------------------------------------------------------------------------------------------------------------
    IMMEDIATE NON-FAST mode (deferred = false, fast = false): the handle CORRECTION half of the gap described above is closed here
-   for the index-shifting mode (Kernel/ShiftFace.v, ShiftEdge.v, ShiftVertex.v, ShiftCompose.v).  Still open: the transposition
-   of the swap-with-last (fast) mode, and the public delete_edge / delete_vertex compositions. *)
+   for the index-shifting mode (Kernel/ShiftFace.v, ShiftEdge.v, ShiftVertex.v, ShiftCompose.v), up to the public deletions
+   delete_face / delete_edge / delete_vertex.  Still open: the transposition of the swap-with-last (fast) mode. *)
 From OVM Require Import Kernel.ExactInv Kernel2.ReorderExact Kernel2.ExactBase Kernel.ShiftFace Kernel.ShiftEdge Kernel.ShiftVertex Kernel.ShiftCompose.
 
 (* in the immediate non-fast mode no entity is ever flagged: no_flags holds initially and is kept by all four cores *)
@@ -261,6 +261,64 @@ Theorem C02_immediate_delete_face_survivors : forall f s, deferred s = false -> 
 Proof. exact delete_face_immediate. Qed.
 Print Assumptions C02_immediate_delete_face_survivors.
 
+(* the FULL invariant of the immediate non-fast mode, shift_inv2 = shift_inv + (with both ebu and fbu on: duplicate-free lists,
+   closed live cells, simple faces -- what reorder_incident_halffaces needs), is kept by all four cores; for delete_cell_core the
+   re-ordered lists are the ones the deferred-mode run produces on the same state (Kernel2/ExactDelCell.v), transported *)
+Theorem C02_immediate_cores_keep_the_full_invariant : forall h s, deferred s = false -> fast s = false -> shift_inv2 s ->
+  (h < nc s -> shift_inv2 (delete_cell_core h s)) /\
+  (h < nf s -> face_free s h -> shift_inv2 (delete_face_core h s)) /\
+  (h < ne s -> edge_free s h -> shift_inv2 (delete_edge_core h s)) /\
+  (h < nv s -> vertex_free s h -> shift_inv2 (delete_vertex_core h s)).
+Proof.
+  intros h s D F I. split; [|split; [|split]].
+  - exact (shift_inv2_delete_cell_core h s D F I).
+  - exact (shift_inv2_delete_face_core h s D F I).
+  - exact (shift_inv2_delete_edge_core h s D F I).
+  - exact (shift_inv2_delete_vertex_core h s D F I).
+Qed.
+Print Assumptions C02_immediate_cores_keep_the_full_invariant.
+
+(* C02 for the three closure-deleting public operations in immediate non-fast mode, for EVERY state satisfying the invariant and
+   every in-range handle, with any subset of incidences enabled: exactly the brute-force upward closure goes away
+   (keep_slots d cs l = the entries of l at the indices outside cs, in their old order); every survivor keeps its definition,
+   read through the handle shifts (cor1p v: endpoints above v decremented; cor2 (2e+1): halfedges above edge e shifted;
+   shift_many fs: the composed shifts for the deleted faces resp. edges, largest first); the invariant - hence cache exactness,
+   C01 - holds again afterwards *)
+Theorem C02_immediate_public_deletions : forall x s, deferred s = false -> fast s = false -> shift_inv2 s ->
+  (x < nf s ->
+     let cs := cells_at_faces s [x] in let s' := delete_face x s in
+     shift_inv2 s' /\ deferred s' = false /\ fast s' = false /\
+     nv s' = nv s /\ edges s' = edges s /\ faces s' = remove_nth x (faces s) /\
+     cells s' = map (map (cor2 (2 * x + 1))) (keep_slots [] cs (cells s))) /\
+  (x < ne s ->
+     let fs := faces_at_edges s [x] in let cs := cells_at_faces s fs in let s' := delete_edge x s in
+     shift_inv2 s' /\ deferred s' = false /\ fast s' = false /\
+     nv s' = nv s /\ edges s' = remove_nth x (edges s) /\
+     faces s' = map (map (cor2 (2 * x + 1))) (keep_slots [] fs (faces s)) /\
+     cells s' = map (map (shift_many fs)) (keep_slots [] cs (cells s))) /\
+  (x < nv s ->
+     let es := edges_at_vertex s x in let fs := faces_at_edges s es in let cs := cells_at_faces s fs in let s' := delete_vertex x s in
+     shift_inv2 s' /\ deferred s' = false /\ fast s' = false /\
+     nv s' = nv s - 1 /\ edges s' = map (cor1p x) (keep_slots (0, 0) es (edges s)) /\
+     faces s' = map (map (shift_many es)) (keep_slots [] fs (faces s)) /\
+     cells s' = map (map (shift_many fs)) (keep_slots [] cs (cells s))).
+Proof.
+  intros x s D F I. split; [|split].
+  - exact (delete_face_immediate_full x s D F I).
+  - exact (delete_edge_immediate x s D F I).
+  - exact (delete_vertex_immediate x s D F I).
+Qed.
+Print Assumptions C02_immediate_public_deletions.
+
+(* ... hence the surviving definitions do not depend on which incidences the mesh keeps *)
+Theorem C02_immediate_delete_vertex_incidence_independent : forall v s t,
+  deferred s = false -> fast s = false -> shift_inv2 s -> deferred t = false -> fast t = false -> shift_inv2 t -> v < nv s ->
+  nv t = nv s -> edges t = edges s -> faces t = faces s -> cells t = cells s ->
+  let s' := delete_vertex v s in let t' := delete_vertex v t in
+  nv t' = nv s' /\ edges t' = edges s' /\ faces t' = faces s' /\ cells t' = cells s'.
+Proof. exact delete_vertex_immediate_incidence_independent. Qed.
+Print Assumptions C02_immediate_delete_vertex_incidence_independent.
+
 (* non-vacuity on reachable states (two properly oriented tetrahedra sharing face 3, all incidences on, immediate non-fast mode):
    every hypothesis of the theorems above holds (decidable forms), the shift is not the identity, and the invariant holds again
    after the step *)
@@ -280,6 +338,21 @@ Example C02_immediate_concrete :
   cells s1 = [[7; 9; 11; 13]] /\ cells s2 = [[5; 7; 9; 11]] /\ shift_inv_b s2 = true /\
   run (two_tets_immediate ++ [DelFace 0]) = s2 /\
   (let s3 := run (two_tets_immediate ++ [DelFace 3]) in cells_at_faces s [3] = [0; 1] /\ cells s3 = [] /\ nf s3 = 6 /\ shift_inv_b s3 = true).
+Proof. vm_compute. repeat split. Qed.
+
+Example C02_immediate_public_concrete :
+  let s := run two_tets_immediate in
+  let se := run (two_tets_immediate ++ [DelEdge 0]) in
+  let sv := run (two_tets_immediate ++ [DelVertex 0]) in
+  let t := run (EnableVBU false :: EnableEBU false :: EnableFBU false :: two_tets_immediate) in
+  shift_inv2_b s = true /\ shift_inv2_b t = true /\ ebu t = false /\
+  faces_at_edges s [0] = [0; 2] /\ cells_at_faces s [0; 2] = [0] /\
+  edges se = [(1, 2); (2, 0); (2, 3); (3, 0); (3, 1); (2, 4); (4, 1); (3, 4)] /\
+  faces se = [[3; 4; 6]; [9; 5; 1]; [0; 10; 12]; [4; 14; 11]; [8; 13; 15]] /\ cells se = [[3; 5; 7; 9]] /\ shift_inv2_b se = true /\
+  edges_at_vertex s 0 = [0; 2; 4] /\ nv sv = 4 /\
+  edges sv = [(0, 1); (1, 2); (2, 0); (1, 3); (3, 0); (2, 3)] /\ faces sv = [[5; 3; 1]; [0; 6; 8]; [2; 10; 7]; [4; 9; 11]] /\
+  cells sv = [[1; 3; 5; 7]] /\ shift_inv2_b sv = true /\
+  (let tv := delete_vertex 0 t in edges tv = edges sv /\ faces tv = faces sv /\ cells tv = cells sv).
 Proof. vm_compute. repeat split. Qed.
 
 (* non-vacuity: the two-tetrahedra state satisfies every hypothesis (checked by computation of the decidable versions) *)
